@@ -318,3 +318,4 @@ def check(ctx, rep):
     w_rule(ctx, rep, "C18.COW", lambda h, t: h.family in ("sequence", "mapping", "set"))
     from .c08 import peer_rule
     peer_rule(ctx, rep, "C18.PEER")    # reset_<alias>() works on a deep copy (a forwarded deletion must not reach the original)
+    metarules.override_slot_name(ctx, rep, "C18.SLOT")
